@@ -1,0 +1,396 @@
+//go:build verif
+
+// Contracts for package httpgrpc, read by /verif/engine (govc). This file is
+// compiled only with the `verif` build tag and contains nothing but comments.
+
+package httpgrpc
+
+// ---- C14: status-code mapping (codes.go, DefaultErrorRenderer) ----
+//
+// http_of_code is the table documented on DefaultErrorRenderer, transcribed.
+//
+//@ define http_of_code(c) = ite(c == 0, 200, ite(c == 1, 502, ite(c == 2, 500, ite(c == 3, 400, ite(c == 4, 504, ite(c == 5, 404, ite(c == 6, 409, ite(c == 7, 403, ite(c == 16, 401, ite(c == 8, 429, ite(c == 9, 412, ite(c == 10, 409, ite(c == 11, 422, ite(c == 12, 501, ite(c == 13, 500, ite(c == 14, 503, 500))))))))))))))))
+//
+//@ func httpStatusFromCode
+//@   ensures[C14] table: result == http_of_code(code)
+//@   ensures[C14] error_status_for_error_code: code != 0 ==> 400 <= result && result <= 599
+//@   modifies nothing
+//
+//@ func codeFromHttpStatus
+//@   ensures[C14] ok_iff_2xx: (result == 0) <==> (stat >= 200 && stat < 300)
+//@   ensures[C14] valid_code: 0 <= result && result <= 16
+//@   modifies nothing
+//
+//@ func DefaultErrorRenderer
+//@   ensures[C14] one_error_reply: calls(http.Error) == 1
+//@   assert_call[C14] http.Error : writer: arg0 == w
+//@   assert_call[C14] http.Error : code_is_table_or_499: arg2 == 499 || arg2 == http_of_code(status_code(st))
+//@   assert_call[C14] http.Error : only_cancel_gets_499: arg2 == 499 ==> (status_code(st) == 1 || status_code(st) == 4) && ctx_err(ctx) != nil
+//@   assert_call[C14] http.Error : done_request_gets_499: (status_code(st) == 1 || status_code(st) == 4) && old(ctx_err(ctx)) != nil ==> arg2 == 499
+//@   modifies everything
+
+// ---- C09: deadlines across HTTP (contextFromHeaders, headersFromContext) ----
+//
+// hdr1(h, k): what http.Header.Get(k) returns.
+//@ define hdr1(h, k) = ite(len(h[canon_key(k)]) > 0, h[canon_key(k)][0], "")
+//@ define grpc_timeout(h) = hdr1(h, "GRPC-Timeout")
+//@ define timeout_digits(t) = substr(t, 0, len(t) - 1)
+//@ define timeout_unit(c) = ite(c == 'H', 3600000000000, ite(c == 'M', 60000000000, ite(c == 'S', 1000000000, ite(c == 'm', 1000000, ite(c == 'u', 1000, ite(c == 'n', 1, 0))))))
+//@ define sat_mul(v, u) = ite(v * u > 9223372036854775807, 9223372036854775807, v * u)
+//
+//@ func contextFromHeaders
+//@   ensures[C09] no_header_no_timeout: grpc_timeout(h) == "" ==> calls(context.WithTimeout) == 0
+//@   ensures[C09] malformed_is_ignored: grpc_timeout(h) != "" && (!parse_ok(timeout_digits(grpc_timeout(h)), 64) || timeout_unit(byteat(grpc_timeout(h), len(grpc_timeout(h)) - 1)) == 0) ==> calls(context.WithTimeout) == 0
+//@   ensures[C09] valid_gives_one_timeout: result2 == nil && grpc_timeout(h) != "" && parse_ok(timeout_digits(grpc_timeout(h)), 64) && timeout_unit(byteat(grpc_timeout(h), len(grpc_timeout(h)) - 1)) != 0 ==> calls(context.WithTimeout) == 1
+//@   assert_call[C09] context.WithTimeout : saturating: parse_val(timeout_digits(grpc_timeout(h))) >= 0 ==> arg1 == sat_mul(parse_val(timeout_digits(grpc_timeout(h))), timeout_unit(byteat(grpc_timeout(h), len(grpc_timeout(h)) - 1)))
+//@   assert_call[C09] context.WithTimeout : only_for_valid: parse_ok(timeout_digits(grpc_timeout(h)), 64) && timeout_unit(byteat(grpc_timeout(h), len(grpc_timeout(h)) - 1)) != 0
+//@   modifies nothing
+//
+// headersFromContext: with d = time.Until(deadline) the header is "<M>m" with
+// M = max(1, d / 1ms) (Go truncation); no deadline => no GRPC-Timeout header.
+//@ define millis_of(d) = ite(d / 1000000 <= 0, 1, d / 1000000)
+//@ func headersFromContext
+//@   ensures[C09] no_deadline_no_header: !lastresult("context.Context.Deadline", 1) ==> !called("(http.Header).Set")
+//@   ensures[C09] deadline_sets_header_once: lastresult("context.Context.Deadline", 1) ==> calls("(http.Header).Set") == 1
+//@   assert_call[C09] (http.Header).Set : key: arg1 == "GRPC-Timeout"
+//@   assert_call[C09] (http.Header).Set : into_result: arg0 == h
+//@   assert_call[C09] (http.Header).Set : value: arg2 == fmt_dm(millis_of(lastresult("time.Until")))
+//@   assert_call[C09] fmt.Sprintf : never_later_than_caller: millis_of(lastresult("time.Until")) >= 1 && (lastresult("time.Until") >= 1000000 ==> millis_of(lastresult("time.Until")) * 1000000 <= lastresult("time.Until") && lastresult("time.Until") - millis_of(lastresult("time.Until")) * 1000000 < 1000000)
+//@   ensures[C09,C03] result_is_the_header_map: result == h
+//@   modifies everything
+
+// ---- C07 / C01: framing (io.go) ----
+//
+//@ func writeProtoMessage
+//@   ensures[C01,C07] marshal_error_writes_nothing: lastresult("encoding.Codec.Marshal", 1) != nil ==> result == lastresult("encoding.Codec.Marshal", 1) && !called("binary.Write") && !called("io.Writer.Write")
+//@   assert_call[C01] encoding.Codec.Marshal : the_message_with_the_given_codec: arg0 == codec && arg1 == m
+//@   assert_call[C01,C07] writeSizePreface : size_prefix_first_negative_for_the_final_frame: arg0 == w && !called("io.Writer.Write") && len(lastresult("encoding.Codec.Marshal", 0)) <= 2147483647 && (end ==> arg1 == 0 - len(lastresult("encoding.Codec.Marshal", 0))) && (!end ==> arg1 == len(lastresult("encoding.Codec.Marshal", 0)))
+//@   assert_call[C01] io.Writer.Write : then_exactly_the_marshalled_bytes: arg0 == w && arg1 == lastresult("encoding.Codec.Marshal", 0) && calls(writeSizePreface) == 1 && lastresult(writeSizePreface) == nil
+//@   ensures[C01] one_payload_write_at_most: calls("io.Writer.Write") <= 1
+//@   ensures[C01,C07] success_wrote_prefix_and_payload: result == nil ==> calls(writeSizePreface) == 1 && calls("io.Writer.Write") == 1
+//@   modifies external
+//
+//@ func writeSizePreface
+//@   ensures[C01,C07] calls("binary.Write") == 1
+//@   assert_call[C01,C07] binary.Write : big_endian_int32: arg0 == w && typeis(arg2, "int32") && unbox(arg2, "int32") == sz
+//@   modifies external
+//
+//@ func asTrailerProto
+//@   ensures[C03] result != nil && fresh(result)
+//@   modifies nothing
+//
+//@ func readSizePreface
+//@   ensures[C07,C01] whole_prefix: old(rd_avail(in)) >= 4 ==> result1 == nil && result0 == be32(in, old(rd_pos(in))) && rd_pos(in) == old(rd_pos(in)) + 4
+//@   ensures[C07,C08] clean_end: old(rd_avail(in)) <= 0 ==> result1 == rd_end_err(in) && rd_pos(in) == old(rd_pos(in))
+//@   ensures[C07] partial_prefix_is_error: 0 < old(rd_avail(in)) && old(rd_avail(in)) < 4 ==> result1 == short_read_err(in)
+//@   ensures[C07,C11] never_fabricates: result1 != nil ==> result0 == 0
+//@   modifies rd_pos(in)
+//
+//@ func readProtoMessage
+//@   alloc_bound[C07,C11] maxMessageSize
+//@   ensures[C07,C11] bad_size_rejected: (sz < 0 || sz > maxMessageSize) ==> result != nil && rd_pos(in) == old(rd_pos(in))
+//@   ensures[C07] bad_size_reads_nothing: (sz < 0 || sz > maxMessageSize) ==> !called("io.ReadAtLeast") && !called("encoding.Codec.Unmarshal")
+//@   ensures[C07,C01] success_consumes_exactly_the_frame: result == nil ==> 0 <= sz && sz <= maxMessageSize && rd_pos(in) == old(rd_pos(in)) + sz
+//@   ensures[C07,C01] success_decodes_exactly_once: result == nil ==> calls("encoding.Codec.Unmarshal") == 1
+//@   ensures[C07] short_payload_is_error: 0 <= sz && sz <= maxMessageSize && old(rd_avail(in)) < sz ==> result != nil
+//@   ensures[C07] short_payload_is_not_decoded: 0 <= sz && sz <= maxMessageSize && old(rd_avail(in)) < sz ==> !called("encoding.Codec.Unmarshal")
+//@   ensures[C07] short_payload_error_kind: 0 < sz && sz <= maxMessageSize && old(rd_avail(in)) < sz ==> (old(rd_avail(in)) <= 0 ==> result == rd_end_err(in)) && (old(rd_avail(in)) > 0 ==> result == short_read_err(in))
+//@   assert_call[C07,C01] encoding.Codec.Unmarshal : exact_payload: len(arg1) == sz && (forall j int :: 0 <= j && j < sz ==> arg1[j] == rd_at(in, old(rd_pos(in)) + j))
+//@   assert_call[C07,C01] encoding.Codec.Unmarshal : into_destination: arg0 == codec && arg2 == m
+//@   assert_call[C07] io.ReadAtLeast : reads_from_in: arg0 == in
+//@   modifies rd_pos(in), external
+
+// ---- serverStream.RecvMsg: C07 (truncation, bad sizes), C08 (single request), C01 ----
+//
+//@ define sbody(s) = s.r.Body
+//@ func (*serverStream).RecvMsg
+//@   ensures[C08] single_request_second_recv: !old(s.respStream) && old(s.recvd) > 0 ==> result == io.EOF && rd_pos(sbody(s)) == old(rd_pos(sbody(s)))
+//@   ensures[C08] single_request_second_recv_reads_nothing: !old(s.respStream) && old(s.recvd) > 0 ==> !called("readSizePreface")
+//@   ensures[C08,C01] counts_attempts: !(!old(s.respStream) && old(s.recvd) > 0) && old(s.recvd) < 9223372036854775807 ==> s.recvd == old(s.recvd) + 1
+//@   ensures[C07,C01] success_is_one_whole_frame: result == nil ==> old(rd_avail(sbody(s))) >= 4 && be32(sbody(s), old(rd_pos(sbody(s)))) >= 0 && be32(sbody(s), old(rd_pos(sbody(s)))) <= maxMessageSize && old(rd_avail(sbody(s))) >= 4 + be32(sbody(s), old(rd_pos(sbody(s))))
+//@   ensures[C07,C01] success_advances_past_the_frame: result == nil && old(s.respStream) ==> rd_pos(sbody(s)) == old(rd_pos(sbody(s))) + 4 + be32(sbody(s), old(rd_pos(sbody(s))))
+//@   ensures[C07] truncated_frame_is_not_eof: old(s.respStream) && old(rd_avail(sbody(s))) > 0 && (old(rd_avail(sbody(s))) < 4 || old(rd_avail(sbody(s))) < 4 + be32(sbody(s), old(rd_pos(sbody(s))))) ==> result != nil && (rd_end_err(sbody(s)) == io.EOF ==> result != io.EOF)
+//@   ensures[C07,C11] negative_or_huge_size_rejected: old(rd_avail(sbody(s))) >= 4 && (be32(sbody(s), old(rd_pos(sbody(s)))) < 0 || be32(sbody(s), old(rd_pos(sbody(s)))) > maxMessageSize) && !(!old(s.respStream) && old(s.recvd) > 0) ==> result != nil
+//@   ensures[C08] single_request_needs_clean_end: result == nil && !old(s.respStream) ==> rd_end_err(sbody(s)) == io.EOF && rd_pos(sbody(s)) == rd_tot(sbody(s))
+//@   assert_call[C01,C07] readProtoMessage : decodes_into_m: arg0 == sbody(s) && arg1 == s.codec && arg3 == m
+//@   modifies s.recvd, rd_pos(sbody(s)), external
+
+// ---- client.go helpers ----
+//
+//@ func statusFromContextError
+//@   ensures[C04] deadline: err == context.DeadlineExceeded ==> is_status_err(result) && err_status_code(result) == 4
+//@   ensures[C04] canceled: err == context.Canceled ==> is_status_err(result) && err_status_code(result) == 1
+//@   ensures[C04,C02] other_errors_unchanged: err != context.DeadlineExceeded && err != context.Canceled ==> result == err
+//@   ensures[C04] nil_stays_nil: (result == nil) <==> (err == nil)
+//@   modifies nothing
+//
+//@ func metadataFromProto
+//@   ensures[C03] result != nil && fresh(result)
+//@   modifies nothing
+//
+//@ func getPeer
+//@   ensures[C13] result != nil && fresh(result)
+//@   ensures[C13] tls_reported: (tls != nil) <==> (result.AuthInfo != nil)
+//@   ensures[C13] tls_state: tls != nil ==> typeis(result.AuthInfo, "credentials.TLSInfo") && unbox(result.AuthInfo, "credentials.TLSInfo").State == *tls
+//@   modifies nothing
+//
+//@ func asMetadata
+//@   ensures[C03] result1 == nil ==> result0 != nil && fresh(result0)
+//@   ensures[C03] result1 != nil ==> result0 == nil
+//@   modifies nothing
+//
+// statFromResponse: the X-GRPC-Status header, when present and parseable, decides
+// the code (and message) whatever the HTTP status says; otherwise the HTTP status
+// is mapped with codeFromHttpStatus. nil means OK.
+//@ define xstatus(reply) = hdr1(reply.Header, "X-GRPC-Status")
+//@ define xcode(reply) = split_head(xstatus(reply), ":")
+//@ func statFromResponse
+//@   ensures[C14,C02] header_code_wins_over_http_status: old(xcode(reply)) != "" && parse_ok(old(xcode(reply)), 32) ==> ((result == nil) <==> (parse_val(old(xcode(reply))) == 0)) && (result != nil ==> status_code(result) == wrap_u32(parse_val(old(xcode(reply)))))
+//@   ensures[C14] without_usable_header_the_http_status_decides: (old(xcode(reply)) == "" || !parse_ok(old(xcode(reply)), 32)) ==> ((result == nil) <==> (lastresult(codeFromHttpStatus) == 0)) && (result != nil ==> status_code(result) == lastresult(codeFromHttpStatus))
+//@   assert_call[C14] codeFromHttpStatus : of_the_replys_status_code: arg0 == reply.StatusCode
+//@   ensures[C02] message_from_header_when_present: result != nil && old(xcode(reply)) != "" && str_contains(old(xstatus(reply)), ":") && !called("status.FromProto") ==> status_msg(result) == split_tail(old(xstatus(reply)), ":")
+//@   ensures[C02] message_defaults_to_http_status_text: result != nil && old(xcode(reply)) == "" && !called("status.FromProto") ==> status_msg(result) == old(reply.Status)
+//@   modifies nothing
+
+// ---- clientStream (client.go) ----
+//
+//@ type clientStream
+//@   guarded_by rMu : done, rErr
+//@   guarded_by wMu : wErr
+//@   invariant[C02,C04,C07] final_error_is_reportable: self.rErr != io.EOF && self.rErr != context.Canceled && self.rErr != context.DeadlineExceeded
+//@   invariant[C05] closed_delivery_channel_means_done: closed(self.rCh) ==> self.done
+//
+// doHttpCall is the body of the goroutine spawned by NewStream (exactly one per
+// stream). It is the only closer of cs.rCh and the only caller of ready.Done.
+//@ define reply_body = lastresult("http.RoundTripper.RoundTrip", 0).Body
+//@ func (*clientStream).doHttpCall
+//@   requires wg_count(&cs.ready) == 1
+//@   requires !closed(cs.rCh) && cs.rCh != nil
+//@   requires !held(&cs.rMu)
+//@   sole_closer cs.rCh
+//@   alloc_bound[C07] maxMessageSize
+//@   blocking_escape[C05,C04] cs.ctx
+//@   loop loop#1 invariant[C05] rErr == nil && !rMuHeld && !held(&cs.rMu) && wg_count(&cs.ready) == 0 && !closed(cs.rCh)
+//@   ensures[C05] ready_released_exactly_once: wg_count(&cs.ready) == 0
+//@   ensures[C05] stream_marked_done_and_closed: cs.done && closed(cs.rCh) && !held(&cs.rMu)
+//@   ensures[C07,C02] truncated_response_is_never_a_clean_end: cs.rErr != io.EOF
+//@   ensures[C04] never_a_bare_context_error: cs.rErr != context.Canceled && cs.rErr != context.DeadlineExceeded
+//@   ensures[C02,C07] success_means_trailer_or_status_seen: cs.rErr == nil && !called("readProtoMessage") ==> cs.tr.Code != 0
+//@   assert_call[C13] getPeer : peer_from_reply_tls: arg0 == cs.baseUrl && arg1 == lastresult("http.RoundTripper.RoundTrip", 0).TLS
+//@   assert_call[C04] http.RoundTripper.RoundTrip : request_carries_stream_context: arg0 == transport
+//@   assert_call[C01,C07] send : delivers_exactly_the_frame_just_read: arg0 == cs.rCh && 0 <= sz && len(arg1) == sz && sz == be32(reply_body, rd_pos(reply_body) - sz - 4) && (forall j int :: 0 <= j && j < sz ==> arg1[j] == rd_at(reply_body, rd_pos(reply_body) - sz + j))
+//@   assert_call[C07,C01,C02] readProtoMessage : trailer_size_is_negated_prefix: arg0 == reply_body && arg1 == cs.codec && sz < 0 && (sz > -2147483648 ==> arg2 == 0 - sz) && (sz == -2147483648 ==> arg2 < 0)
+//@   modifies everything
+
+// ---- C11: HTTP server gatekeeping (server.go, protocol_versions.go) ----
+//
+//@ func getUnaryCodec
+//@   ensures[C11] proto_only_for_its_content_type: media_type_of(contentType) == "application/x-protobuf" ==> result == registered_codec("proto")
+//@   ensures[C11] json_only_for_its_content_type: media_type_of(contentType) == "application/json" ==> result == registered_codec("json")
+//@   ensures[C11] anything_else_is_unsupported: media_type_of(contentType) != "application/x-protobuf" && media_type_of(contentType) != "application/json" ==> result == nil
+//@   modifies nothing
+//
+//@ func getStreamingCodec
+//@   ensures[C11] proto_only_for_the_stream_content_type: media_type_of(contentType) == "application/x-httpgrpc-proto+v1" ==> result == registered_codec("proto")
+//@   ensures[C11] anything_else_is_unsupported: media_type_of(contentType) != "application/x-httpgrpc-proto+v1" ==> result == nil
+//@   modifies nothing
+//
+//@ func writeError
+//@   ensures[C11,C14] exactly_one_error_reply: calls(http.Error) == 1
+//@   assert_call[C11,C14] http.Error : with_the_given_status: arg0 == w && arg2 == code
+//@   modifies everything
+//
+//@ func drainAndClose
+//@   ensures[C11] body_closed_once: calls("io.ReadCloser.Close") == 1
+//@   assert_call[C11] io.ReadCloser.Close : arg0 == r
+//@   modifies rd_pos(r), external
+//
+//@ func peerFromRequest
+//@   ensures[C13] result != nil && fresh(result)
+//@   ensures[C13] remote_address: typeis(result.Addr, "strAddr") && unbox(result.Addr, "strAddr") == r.RemoteAddr
+//@   ensures[C13] tls_reported: (r.TLS != nil) <==> (result.AuthInfo != nil)
+//@   ensures[C13] tls_state: r.TLS != nil ==> typeis(result.AuthInfo, "credentials.TLSInfo") && unbox(result.AuthInfo, "credentials.TLSInfo").State == *r.TLS
+//@   modifies nothing
+//
+// The handler installed for a unary method. H = the registered method handler.
+//@ define unary_reject_status(method, codec_ok, hdr_ok) = ite(method != "POST", 405, ite(!codec_ok, 415, ite(!hdr_ok, 400, 499)))
+//@ closure handleMethod.return
+//@   ensures[C11] handler_runs_at_most_once: calls("grpc.MethodDesc.Handler") <= 1
+//@   ensures[C11] handler_only_for_valid_requests: called("grpc.MethodDesc.Handler") ==> old(r.Method) == "POST" && called(getUnaryCodec) && lastresult(getUnaryCodec) != nil && called(contextFromHeaders) && lastresult(contextFromHeaders, 2) == nil && called("ioutil.ReadAll") && lastresult("ioutil.ReadAll", 1) == nil
+//@   ensures[C11] rejected_with_exactly_one_error_reply: !called("grpc.MethodDesc.Handler") ==> calls(writeError) == 1 && !called("http.ResponseWriter.Write")
+//@   ensures[C11] not_post_is_405_with_allow: old(r.Method) != "POST" ==> !called("grpc.MethodDesc.Handler") && lastarg(writeError, 1) == 405 && called("(http.Header).Set") && lastarg("(http.Header).Set", 1) == "Allow" && lastarg("(http.Header).Set", 2) == "POST" && lastarg("(http.Header).Set", 0) == resp_header(w)
+//@   ensures[C11] post_is_checked_for_media_type: old(r.Method) == "POST" ==> called(getUnaryCodec)
+//@   ensures[C11] unsupported_media_type_is_415: called(getUnaryCodec) && lastresult(getUnaryCodec) == nil ==> !called("grpc.MethodDesc.Handler") && lastarg(writeError, 1) == 415
+//@   ensures[C11] supported_media_type_checks_headers: called(getUnaryCodec) && lastresult(getUnaryCodec) != nil ==> called(contextFromHeaders)
+//@   ensures[C11] undecodable_headers_are_400: called(contextFromHeaders) && lastresult(contextFromHeaders, 2) != nil ==> !called("grpc.MethodDesc.Handler") && lastarg(writeError, 1) == 400
+//@   ensures[C11] unreadable_body_is_499: called("ioutil.ReadAll") && lastresult("ioutil.ReadAll", 1) != nil ==> !called("grpc.MethodDesc.Handler") && lastarg(writeError, 1) == 499
+//@   ensures[C11] decodable_headers_read_the_body: called(contextFromHeaders) && lastresult(contextFromHeaders, 2) == nil ==> called("ioutil.ReadAll")
+//@   ensures[C11] valid_request_reaches_the_handler: called("ioutil.ReadAll") && lastresult("ioutil.ReadAll", 1) == nil ==> calls("grpc.MethodDesc.Handler") == 1
+//@   assert_call[C11] getUnaryCodec : of_the_request_content_type: arg0 == hdr1(r.Header, "Content-Type")
+//@   assert_call[C11,C03,C09] contextFromHeaders : from_the_request_headers: arg1 == r.Header
+//@   assert_call[C11] writeError : to_this_response: arg0 == w
+//@   assert_call[C11,C16,C12] grpc.MethodDesc.Handler : registered_server_and_transport_interceptor: arg0 == svr && arg3 == unaryInt
+//@   assert_call[C11,C04,C10] grpc.MethodDesc.Handler : context_from_request_with_transport_stream: arg1 == lastresult(grpc.NewContextWithServerTransportStream) && lastarg(grpc.NewContextWithServerTransportStream, 0) == lastresult(contextFromHeaders, 0)
+//@   assert_call[C11,C01] grpc.MethodDesc.Handler : decoder_is_the_request_body: isfunc(arg2, "handleMethod.return.dec") && *binding(arg2, 0, "*encoding.Codec") == lastresult(getUnaryCodec) && *binding(arg2, 1, "*[]byte") == lastresult("ioutil.ReadAll", 0)
+//@   assert_call[C13] peer.NewContext : peer_of_the_request: arg1 == lastresult(peerFromRequest)
+//@   ensures[C03] handler_headers_and_trailers_copied: called("grpc.MethodDesc.Handler") ==> calls(toHeaders) == 2
+//@   ensures[C02,C14] failure_goes_to_the_error_renderer_once: called("grpc.MethodDesc.Handler") && lastresult("grpc.MethodDesc.Handler", 1) != nil ==> calls("var:errHandler") == 1 && !called("http.ResponseWriter.Write") && !called(writeError)
+//@   ensures[C02] success_writes_the_response_once: called("grpc.MethodDesc.Handler") && lastresult("grpc.MethodDesc.Handler", 1) == nil ==> !called("var:errHandler") && ((lastresult("encoding.Codec.Marshal", 1) != nil ==> calls(writeError) == 1 && lastarg(writeError, 1) == 500 && !called("http.ResponseWriter.Write")) && (lastresult("encoding.Codec.Marshal", 1) == nil ==> calls("http.ResponseWriter.Write") == 1 && !called(writeError) && lastarg("http.ResponseWriter.Write", 1) == lastresult("encoding.Codec.Marshal", 0)))
+//@   assert_call[C02,C14] var:errHandler : with_request_context_and_nonzero_code: arg0 == req_ctx(r) && arg2 == w && status_code(arg1) != 0
+//@   assert_call[C02] encoding.Codec.Marshal : same_codec_as_the_request: arg0 == lastresult(getUnaryCodec)
+//@   ensures[C11] request_body_drained_and_closed: calls(drainAndClose) == 1
+//@   modifies everything
+//
+//@ closure handleMethod.return.dec
+//@   ensures[C11,C01] decodes_with_the_request_codec: calls("encoding.Codec.Unmarshal") == 1
+//@   assert_call[C11,C01] encoding.Codec.Unmarshal : request_bytes_into_the_handlers_message: arg0 == codec && arg1 == req && arg2 == msg
+//@   ensures[C11] undecodable_request_is_invalid_argument: lastresult("encoding.Codec.Unmarshal") != nil ==> is_status_err(result) && err_status_code(result) == 3
+//@   ensures[C11] decodable_request_is_nil: lastresult("encoding.Codec.Unmarshal") == nil ==> result == nil
+//@   modifies external
+//
+// The handler installed for a streaming method.
+//@ define stream_handler_ran = called("grpc.StreamDesc.Handler") || called("var:streamInt")
+//@ closure handleStream.return
+//@   ensures[C11,C16] handler_or_interceptor_runs_at_most_once: calls("grpc.StreamDesc.Handler") + calls("var:streamInt") <= 1
+//@   ensures[C11] handler_only_for_valid_requests: stream_handler_ran ==> old(r.Method) == "POST" && called(getStreamingCodec) && lastresult(getStreamingCodec) != nil && called(contextFromHeaders) && lastresult(contextFromHeaders, 2) == nil
+//@   ensures[C11] rejected_with_exactly_one_error_reply: !stream_handler_ran ==> calls(writeError) == 1 && !called(writeProtoMessage)
+//@   ensures[C11] not_post_is_405_with_allow: old(r.Method) != "POST" ==> !stream_handler_ran && lastarg(writeError, 1) == 405 && called("(http.Header).Set") && lastarg("(http.Header).Set", 1) == "Allow" && lastarg("(http.Header).Set", 2) == "POST"
+//@   ensures[C11] post_is_checked_for_media_type: old(r.Method) == "POST" ==> called(getStreamingCodec)
+//@   ensures[C11] unsupported_media_type_is_415: called(getStreamingCodec) && lastresult(getStreamingCodec) == nil ==> !stream_handler_ran && lastarg(writeError, 1) == 415
+//@   ensures[C11] supported_media_type_checks_headers: called(getStreamingCodec) && lastresult(getStreamingCodec) != nil ==> called(contextFromHeaders)
+//@   ensures[C11] undecodable_headers_are_400: called(contextFromHeaders) && lastresult(contextFromHeaders, 2) != nil ==> !stream_handler_ran && lastarg(writeError, 1) == 400
+//@   ensures[C11] valid_request_reaches_the_handler: called(contextFromHeaders) && lastresult(contextFromHeaders, 2) == nil ==> calls("grpc.StreamDesc.Handler") + calls("var:streamInt") == 1
+//@   ensures[C16] transport_interceptor_takes_precedence: stream_handler_ran ==> (called("var:streamInt") <==> old(streamInt) != nil)
+//@   assert_call[C11] getStreamingCodec : of_the_request_content_type: arg0 == hdr1(r.Header, "Content-Type")
+//@   assert_call[C11,C03,C09] contextFromHeaders : from_the_request_headers: arg1 == r.Header
+//@   assert_call[C16,C12] var:streamInt : server_stream_info_and_registered_handler: arg0 == svr && typeis(arg1, "*serverStream") && unbox(arg1, "*serverStream") == str && arg2 == info && arg3 == desc.Handler
+//@   assert_call[C16,C12] grpc.StreamDesc.Handler : server_and_stream: arg0 == svr && typeis(arg1, "*serverStream") && unbox(arg1, "*serverStream") == str
+//@   assert_call[C11,C01] var:streamInt : stream_is_bound_to_this_exchange: str.r == r && str.w == w && str.codec == lastresult(getStreamingCodec) && str.respStream == desc.ClientStreams && !str.headersSent && !str.writeFailed && str.recvd == 0
+//@   assert_call[C11,C01] grpc.StreamDesc.Handler : stream_is_bound_to_this_exchange: str.r == r && str.w == w && str.codec == lastresult(getStreamingCodec) && str.respStream == desc.ClientStreams && !str.headersSent && !str.writeFailed && str.recvd == 0
+//@   assert_call[C13] peer.NewContext : peer_of_the_request: arg1 == lastresult(peerFromRequest)
+//@   ensures[C11,C02] exactly_one_trailer_frame_unless_the_write_failed: stream_handler_ran && !str.writeFailed ==> calls(writeProtoMessage) == 1
+//@   ensures[C11] nothing_after_a_failed_write: stream_handler_ran && str.writeFailed ==> !called(writeProtoMessage)
+//@   assert_call[C11,C02] writeProtoMessage : is_the_final_frame_of_this_reply: arg0 == w && arg1 == lastresult(getStreamingCodec) && arg3 && typeis(arg2, "*HttpTrailer") && unbox(arg2, "*HttpTrailer") == &tr
+//@   assert_call[C02] writeProtoMessage : success_has_code_zero: err == nil ==> tr.Code == 0
+//@   assert_call[C02] writeProtoMessage : failure_has_nonzero_code: err != nil ==> tr.Code != 0
+//@   assert_call[C02] writeProtoMessage : failure_carries_the_handlers_status: err != nil && is_status_err(err) && 0 < err_status_code(err) && err_status_code(err) <= 2147483647 ==> tr.Code == err_status_code(err) && tr.Message == err_status_msg(err) && tr.Details == err_status_details(err)
+//@   assert_call[C03] writeProtoMessage : trailer_metadata_is_what_the_handler_set: tr.Metadata == lastresult(asTrailerProto) && lastarg(asTrailerProto, 0) == lastresult("metadata.Join") && lastarg("metadata.Join", 0) == str.tr
+//@   ensures[C11] request_body_drained_and_closed: calls(drainAndClose) == 1
+//@   modifies everything
+
+// ---- Channel.Invoke / Channel.NewStream (client.go): C13, C12, C04, C02 ----
+//
+//@ func (*Channel).Invoke
+//@   assert_call[C12] path.Join : base_path_then_method: len(arg0) == 2 && arg0[0] == ch.BaseURL.Path && arg0[1] == methodName
+//@   assert_call[C13] internal.ApplyPerRPCCreds : credentials_checked_against_the_url_scheme: arg0 == ctx$entry && arg1 == lastresult("internal.GetCallOptions") && arg2 == lastresult("(*url.URL).String") && (arg3 <==> reqUrl.Scheme == "https") && reqUrl.Scheme == old(ch.BaseURL.Scheme)
+//@   ensures[C13] credential_failure_sends_nothing: called("internal.ApplyPerRPCCreds") && lastresult("internal.ApplyPerRPCCreds", 1) != nil ==> result == lastresult("internal.ApplyPerRPCCreds", 1) && !called("http.RoundTripper.RoundTrip") && !called("go")
+//@   assert_call[C13,C03,C09] headersFromContext : from_the_credentialed_context: arg0 == lastresult("internal.ApplyPerRPCCreds", 0)
+//@   assert_call[C12,C01] http.NewRequest : post_to_the_joined_url: arg0 == "POST" && arg1 == lastresult("(*url.URL).String")
+//@   assert_call[C01] encoding.Codec.Marshal : the_request_message: arg1 == req
+//@   assert_call[C04,C13] http.RoundTripper.RoundTrip : through_the_configured_transport: arg0 == ch.Transport
+//@   assert_call[C04] (*http.Request).WithContext : request_is_bound_to_the_call_context: arg0 == lastresult("http.NewRequest", 0) && arg1 == lastresult("internal.ApplyPerRPCCreds", 0)
+//@   ensures[C04] transport_error_is_translated: called("http.RoundTripper.RoundTrip") && lastresult("http.RoundTripper.RoundTrip", 1) != nil ==> called(statusFromContextError) && result == lastresult(statusFromContextError) && lastarg(statusFromContextError, 0) == lastresult("http.RoundTripper.RoundTrip", 1)
+//@   assert_call[C13] getPeer : peer_reports_the_connection_tls_state: arg0 == ch.BaseURL && arg1 == lastresult("http.RoundTripper.RoundTrip", 0).TLS
+//@   assert_call[C03] setMetadata : from_the_reply_headers: arg0 == lastresult("http.RoundTripper.RoundTrip", 0).Header && arg1 == lastresult("internal.GetCallOptions")
+//@   assert_call[C02,C14] statFromResponse : of_the_reply: arg0 == lastresult("http.RoundTripper.RoundTrip", 0)
+//@   ensures[C02,C14] non_ok_status_is_returned: called(statFromResponse) && status_code(lastresult(statFromResponse)) != 0 ==> result != nil
+//@   ensures[C02] success_needs_ok_status_and_decoded_body: result == nil ==> called(statFromResponse) && status_code(lastresult(statFromResponse)) == 0 && called("encoding.Codec.Unmarshal") && lastresult("encoding.Codec.Unmarshal") == nil
+//@   assert_call[C01] encoding.Codec.Unmarshal : into_the_callers_response: arg2 == resp
+//@   blocking_escape[C05,C04] ctx
+//@   modifies everything
+//
+//@ func newClientStream
+//@   ensures[C05,C01] result != nil && fresh(result) && result.ctx == ctx && result.copts == copts && result.baseUrl == baseUrl && result.w == w && result.respStream == recvStream && result.codec == registered_codec("proto")
+//@   ensures[C05] ready_armed_once_and_channel_open: wg_count(&result.ready) == 1 && result.rCh != nil && !closed(result.rCh) && !held(&result.rMu) && !result.done
+//@   ensures[C20,C05] unbuffered_delivery_channel: chcap(result.rCh) == 0
+//@   modifies nothing
+//
+//@ func (*Channel).NewStream
+//@   assert_call[C12] path.Join : base_path_then_method: len(arg0) == 2 && arg0[0] == ch.BaseURL.Path && arg0[1] == methodName
+//@   assert_call[C13] internal.ApplyPerRPCCreds : credentials_checked_against_the_url_scheme: arg0 == ctx$entry && arg1 == lastresult("internal.GetCallOptions") && arg2 == lastresult("(*url.URL).String") && (arg3 <==> reqUrl.Scheme == "https") && reqUrl.Scheme == old(ch.BaseURL.Scheme)
+//@   ensures[C13] credential_failure_sends_nothing: called("internal.ApplyPerRPCCreds") && lastresult("internal.ApplyPerRPCCreds", 1) != nil ==> result1 == lastresult("internal.ApplyPerRPCCreds", 1) && result0 == nil && !called("go") && !called("context.WithCancel")
+//@   assert_call[C04] context.WithCancel : child_of_the_credentialed_context: arg0 == lastresult("internal.ApplyPerRPCCreds", 0)
+//@   assert_call[C13,C03,C09] headersFromContext : from_the_call_context: arg0 == lastresult("context.WithCancel", 0)
+//@   assert_call[C12,C01] http.NewRequest : post_to_the_joined_url: arg0 == "POST" && arg1 == lastresult("(*url.URL).String")
+//@   ensures[C05] request_error_cancels_and_spawns_nothing: called("http.NewRequest") && lastresult("http.NewRequest", 1) != nil ==> calls("context.CancelFunc") == 1 && !called("go") && result0 == nil && result1 == lastresult("http.NewRequest", 1)
+//@   assert_call[C05,C04,C13] newClientStream : stream_owns_the_call_context_and_options: arg0 == lastresult("context.WithCancel", 0) && arg1 == lastresult("context.WithCancel", 1) && arg2 == boxed(lastresult("io.Pipe", 1)) && arg3 == desc.ServerStreams && arg4 == lastresult("internal.GetCallOptions") && arg5 == ch.BaseURL
+//@   ensures[C05,C01] exactly_one_reader_goroutine_per_stream: result1 == nil ==> calls("go") == 1 && result0 != nil
+//@   assert_call[C05,C04,C12] go:(*clientStream).doHttpCall : the_stream_reader_with_this_request: arg0 == lastresult(newClientStream) && arg1 == ch.Transport && arg2 == lastresult("http.NewRequest", 0) && arg3 == lastresult("io.Pipe", 0)
+//@   modifies everything
+
+// ---- clientStream methods (client.go): C02, C08, C05, C03, C04 ----
+//
+//@ func (*clientStream).readErrorIfDone
+//@   ensures[C02] not_done_no_verdict: !result0 ==> result1 == nil
+//@   ensures[C05] not_done_means_delivery_channel_still_open: !result0 ==> !closed(cs.rCh)
+//@   ensures[C02] done_never_reports_nil: result0 ==> result1 != nil
+//@   ensures[C02,C07,C04] verdict_is_reportable: result1 != context.Canceled && result1 != context.DeadlineExceeded
+//@   assert_call[C02] status.FromProto : status_from_the_trailer: arg0.Code == cs.tr.Code && arg0.Message == cs.tr.Message && arg0.Details == cs.tr.Details && cs.tr.Code != 0 && cs.rErr == nil && cs.done
+//@   ensures[C02] end_of_stream_only_for_an_ok_trailer: result0 && result1 == io.EOF ==> !called("status.FromProto")
+//@   modifies nothing
+//
+//@ func (*clientStream).Trailer
+//@   ensures[C03] no_trailers_before_the_end: !called(metadataFromProto) ==> result == nil
+//@   assert_call[C03] metadataFromProto : of_the_received_trailer_once_done: arg0 == cs.tr.Metadata && cs.done
+//@   modifies nothing
+//
+//@ func (*clientStream).CloseSend
+//@   ensures[C05] closes_the_request_pipe_once: calls("io.WriteCloser.Close") == 1
+//@   assert_call[C05] io.WriteCloser.Close : arg0 == cs.w
+//@   modifies external
+//
+//@ func (*clientStream).SendMsg
+//@   ensures[C05] finished_stream_reports_eof_and_writes_nothing: lastresult("(*clientStream).readErrorIfDone", 0) ==> result == io.EOF && !called(writeProtoMessage)
+//@   ensures[C01,C05] at_most_one_frame_per_send: calls(writeProtoMessage) <= 1
+//@   ensures[C01] write_result_is_returned_and_remembered: called(writeProtoMessage) ==> result == lastresult(writeProtoMessage)
+//@   ensures[C05] earlier_write_error_reports_eof: !lastresult("(*clientStream).readErrorIfDone", 0) && !called(writeProtoMessage) ==> result == io.EOF
+//@   assert_call[C01] writeProtoMessage : one_data_frame_for_the_message: arg0 == cs.w && arg1 == cs.codec && arg2 == m && !arg3 && cs.wErr == nil
+//@   modifies cs.wErr, external
+//
+//@ func (*clientStream).RecvMsg
+//@   blocking_escape[C05,C04] cs.ctx
+//@   ensures[C04] context_end_is_reported_as_status: called(statusFromContextError) ==> result == lastresult(statusFromContextError)
+//@   assert_call[C04] statusFromContextError : of_the_stream_context_error: arg0 == lastresult("context.Context.Err")
+//@   assert_call[C01] encoding.Codec.Unmarshal : into_the_callers_message: arg0 == cs.codec && arg2 == m
+//@   ensures[C01] at_most_one_message_decoded_per_receive: calls("encoding.Codec.Unmarshal") <= 1
+//@   ensures[C08,C01] success_delivered_a_message: result == nil ==> calls("encoding.Codec.Unmarshal") == 1 && lastresult("encoding.Codec.Unmarshal") == nil
+//@   ensures[C08] single_response_success_saw_a_clean_end: result == nil && !cs.respStream ==> calls("(*clientStream).readErrorIfDone") == 2 && lastresult("(*clientStream).readErrorIfDone", 0) && lastresult("(*clientStream).readErrorIfDone", 1) == io.EOF
+//@   ensures[C08,C02] undecodable_message_is_internal: called("encoding.Codec.Unmarshal") && lastresult("encoding.Codec.Unmarshal") != nil ==> is_status_err(result) && err_status_code(result) == 13
+//@   modifies cs.rErr, cs.done, external
+
+// ---- C12: route registration (server.go) ----
+//
+//@ func handleMethod
+//@   ensures[C12,C16] result != nil && isfunc(result, "handleMethod.return")
+//@   modifies nothing
+//@ func handleStream
+//@   ensures[C12,C16] result != nil && isfunc(result, "handleStream.return")
+//@   modifies nothing
+//
+//@ func (*Server).RegisterService
+//@   requires desc != nil && s.handlers != nil
+//@   assert_call[C15,C12] (grpchan.HandlerMap).RegisterService : registry_first_so_a_refused_registration_adds_no_route: arg0 == s.handlers && arg1 == desc && arg2 == svr && !called("(*http.ServeMux).HandleFunc")
+//@   assert_call[C12,C16] handleMethod : per_method_copy_with_the_servers_interceptor: arg0 == svr && arg1 == desc.ServiceName && fresh(arg2) && arg2.MethodName == desc.Methods[rangeindex].MethodName && arg2.Handler == desc.Methods[rangeindex].Handler && arg3 == s.unaryInt && arg4 == &s.opts
+//@   assert_call[C12,C16] handleStream : per_stream_copy_with_the_servers_interceptor: arg0 == svr && arg1 == desc.ServiceName && fresh(arg2) && arg2.StreamName == desc.Streams[rangeindex#2].StreamName && arg2.Handler == desc.Streams[rangeindex#2].Handler && arg2.ClientStreams == desc.Streams[rangeindex#2].ClientStreams && arg2.ServerStreams == desc.Streams[rangeindex#2].ServerStreams && arg3 == s.streamInt && arg4 == &s.opts
+//@   assert_call[C12] (*http.ServeMux).HandleFunc : route_is_base_path_joined_with_service_slash_method: arg0 == &s.mux && (!called(handleStream) ==> arg2 == lastresult(handleMethod) && arg1 == path_join2(s.basePath, fmt_slash2(desc.ServiceName, desc.Methods[rangeindex].MethodName))) && (called(handleStream) ==> arg2 == lastresult(handleStream) && arg1 == path_join2(s.basePath, fmt_slash2(desc.ServiceName, desc.Streams[rangeindex#2].StreamName)))
+//@   loop loop#1 invariant[C12] one_route_per_method_so_far: calls("(*http.ServeMux).HandleFunc") == rangeindex + 1 && calls(handleMethod) == rangeindex + 1 && !called(handleStream)
+//@   loop loop#2 invariant[C12] one_route_per_stream_so_far: calls(handleStream) == rangeindex#2 + 1 && calls("(*http.ServeMux).HandleFunc") == len(desc.Methods) + rangeindex#2 + 1
+//@   ensures[C12] one_route_per_method_and_stream: calls("(*http.ServeMux).HandleFunc") == len(desc.Methods) + len(desc.Streams)
+//@   modifies everything
+//
+//@ func (*Server).GetServiceInfo
+//@   requires registry_keys_are_service_names: forall k string :: has(s.handlers, k) ==> s.handlers[k].desc != nil && s.handlers[k].desc.ServiceName == k
+//@   ensures[C15] delegates_to_the_registry: calls("(grpchan.HandlerMap).GetServiceInfo") == 1 && result == lastresult("(grpchan.HandlerMap).GetServiceInfo")
+//@   assert_call[C15] (grpchan.HandlerMap).GetServiceInfo : arg0 == s.handlers
+//@   modifies nothing
+//
+//@ closure HandleServices.arg#1
+//@   assert_call[C12,C16] handleMethod : per_method_copy_with_the_given_interceptor: arg0 == svr && arg1 == desc.ServiceName && fresh(arg2) && arg2.MethodName == desc.Methods[rangeindex].MethodName && arg2.Handler == desc.Methods[rangeindex].Handler && arg3 == unaryInt && arg4 == &hOpts
+//@   assert_call[C12,C16] handleStream : per_stream_copy_with_the_given_interceptor: arg0 == svr && arg1 == desc.ServiceName && fresh(arg2) && arg2.StreamName == desc.Streams[rangeindex#2].StreamName && arg2.Handler == desc.Streams[rangeindex#2].Handler && arg2.ClientStreams == desc.Streams[rangeindex#2].ClientStreams && arg2.ServerStreams == desc.Streams[rangeindex#2].ServerStreams && arg3 == streamInt
+//@   assert_call[C12] var:mux : route_is_base_path_joined_with_service_slash_method: (!called(handleStream) ==> arg1 == lastresult(handleMethod) && arg0 == path_join2(basePath, fmt_slash2(desc.ServiceName, desc.Methods[rangeindex].MethodName))) && (called(handleStream) ==> arg1 == lastresult(handleStream) && arg0 == path_join2(basePath, fmt_slash2(desc.ServiceName, desc.Streams[rangeindex#2].StreamName)))
+//@   modifies everything
+//
+//@ func HandleServices
+//@   ensures[C12] every_registration_is_visited: calls("(grpchan.HandlerMap).ForEach") == 1
+//@   assert_call[C12] (grpchan.HandlerMap).ForEach : over_the_given_registry: arg0 == reg && isfunc(arg1, "HandleServices.arg#1")
+//@   modifies everything
